@@ -105,6 +105,9 @@ func verifRequire(t *testing.T) {
 	if c06CurField < 0 {
 		t.Fatalf("HARNESS: pipeline.Offsets has no int64 field named current (renamed?)")
 	}
+	if c07StreamNameField.Name == "" {
+		t.Fatalf("HARNESS: pipeline.Event has no string field named streamName (renamed?)")
+	}
 }
 
 // ---------------------------------------------------------------- execution
@@ -151,10 +154,7 @@ type c06Result struct {
 // c06Execute plays one (buffer, append schedule) over the case's content with real code.
 func c06Execute(c *C06Case, buf int, splits, resume []int) (res c06Result) {
 	verifSetup()
-	dir, err := os.MkdirTemp("", "vc06-")
-	if err != nil {
-		verifInfra("mkdtemp: %v", err)
-	}
+	dir := verifTempDir("vc06-")
 	defer os.RemoveAll(dir)
 	path := filepath.Join(dir, "app.log")
 	wf, err := os.OpenFile(path, os.O_CREATE|os.O_WRONLY|os.O_APPEND, 0o600)
@@ -776,6 +776,7 @@ var propC06 = vkit.NewProp([]string{pC06}, "c06reader", genC06, runC06)
 // TestVerifC06Random: generated contents / buffers / limits / schedules / start positions.
 func TestVerifC06Random(t *testing.T) {
 	defer vkit.WriteStats()
+	defer verifTempCleanup()
 	verifRequire(t)
 	propC06.Check(t)
 }
@@ -785,6 +786,7 @@ func TestVerifC06Random(t *testing.T) {
 // reset and tail. Sharded by case index.
 func TestVerifC06Enum(t *testing.T) {
 	defer vkit.WriteStats()
+	defer verifTempCleanup()
 	verifRequire(t)
 	shard, _ := strconv.Atoi(os.Getenv("VERIF_SHARD"))
 	shards, _ := strconv.Atoi(os.Getenv("VERIF_SHARDS"))
